@@ -9,7 +9,7 @@ import glob, json, os, subprocess, sys, time
 
 HERE = os.path.dirname(os.path.dirname(os.path.abspath(__file__)))
 # which checks are expected to notice a change seeded for property X (own check first)
-ALSO = {"C02": ["C05"], "C15": ["C03"], "C19": ["C06", "C10", "C07"], "C12": ["C11", "C03"], "C04": [], "C08": [], "C01": []}
+ALSO = {"C06": ["C02"], "C02": ["C05"], "C15": ["C03"], "C19": ["C06", "C10", "C07"], "C12": ["C11", "C03"], "C04": [], "C08": [], "C01": []}
 
 
 def sh(cmd, cwd=None, env=None, timeout=3600):
@@ -57,7 +57,7 @@ def main():
             if rc == 1 and chk == prop:
                 break
     sh("git checkout -q -- . && git clean -fdq -e target", cwd=wt)
-    json.dump(results, open(os.path.join(HERE, "build", "sweep.json"), "w"), indent=1)
+    json.dump(results, open(os.environ.get("SWEEP_OUT") or os.path.join(HERE, "build", "sweep.json"), "w"), indent=1)
     caught = sorted(set(r["id"] for r in results if r["rc"] == 1 and r["id"] != "unchanged"))
     allids = sorted(set(r["id"] for r in results if r["id"] != "unchanged"))
     print("SUMMARY caught %d of %d: missed = %s" % (len(caught), len(allids), [i for i in allids if i not in caught]))
